@@ -24,8 +24,32 @@ build() { # build <pkg> <out> [flags...]
   rm -f "$tmp.err"
   mv -f "$tmp" "$out"
 }
+# engine E2 (controlled scheduler): instrument server.go / serve_mux.go from the working tree, build with the overlay
+build_e2() {
+  build ./cmd/instrument "$BIN/instrument"
+  mkdir -p "$BIN/e2"
+  python3 "$ROOT/harness/mkoverlay.py" "$BIN/e2" "$BIN/instrument" || { echo "INSTRUMENTATION FAILED" >&2; exit 2; }
+  local tmp="$BIN/vsched.$$"
+  (cd "$ROOT/harness" && go build -tags verif -overlay "$BIN/e2/overlay.json" -o "$tmp" ./cmd/vsched) || { echo "BUILD FAILED: cmd/vsched" >&2; rm -f "$tmp"; exit 2; }
+  mv -f "$tmp" "$BIN/vsched"
+}
+export VERIF_GOMAXPROCS=${VERIF_GOMAXPROCS:-}
 case "$prop" in
-  C12s|C13|C14s) echo "not yet" >&2; exit 2;;
+  C13)        # E2 only
+    OVL=""; build_e2
+    if [ "$mode" = "--replay" ]; then exec "$BIN/vsched" -prop "$prop" -replay "$1"; fi
+    VERIF_GOMAXPROCS=1 exec "$BIN/vsched" -prop "$prop" -tier "$mode" -root "$OUT" "$@";;
+  C12|C14)    # E1/E3 part in vcheck, then the E2 part appended to the same evidence file
+    build ./cmd/vcheck "$BIN/vcheck"
+    ( OVL=""; build_e2 )
+    if [ "$mode" = "--replay" ]; then
+      if grep -q '"sub": "e2/' "$1" 2>/dev/null; then exec "$BIN/vsched" -prop "$prop" -replay "$1"; else exec "$BIN/vcheck" -prop "$prop" -replay "$1"; fi
+    fi
+    "$BIN/vcheck" -prop "$prop" -tier "$mode" -root "$OUT" "$@"; rc1=$?
+    VERIF_GOMAXPROCS=1 "$BIN/vsched" -prop "$prop" -tier "$mode" -root "$OUT" -append "$@"; rc2=$?
+    if [ $rc1 -eq 2 ] || [ $rc2 -eq 2 ]; then exit 2; fi
+    if [ $rc1 -ne 0 ] || [ $rc2 -ne 0 ]; then exit 1; fi
+    exit 0;;
 esac
 build ./cmd/vcheck "$BIN/vcheck"
 if [ "$mode" = "--replay" ]; then
